@@ -275,6 +275,19 @@ func (g *Gen) evalBin(env *Env, x *SExpr) *Val {
 }
 
 func (g *Gen) evalSel(env *Env, x *SExpr) *Val {
+	// pkg.Name : a constant or variable of another package
+	if id := x.Args[0]; id.Op == "ident" {
+		_, isVar := env.vars[id.Name]
+		if !isVar && len(g.localsByName[id.Name]) == 0 {
+			if tp := g.P.tpkgByName[id.Name]; tp != nil {
+				if self := g.P.tpkgByPath[env.pkg]; self == nil || self.Scope().Lookup(id.Name) == nil {
+					n := *env
+					n.pkg = tp.Path()
+					return g.evalIdent(&n, &SExpr{Op: "ident", Name: x.Name, Pos: x.Pos})
+				}
+			}
+		}
+	}
 	b := g.eval(env, x.Args[0])
 	switch b.K {
 	case KStruct:
